@@ -25,3 +25,12 @@ Proof. revert b. induction a as [|x a IH]; intros [|y b]; cbn; try reflexivity. 
 Lemma zipw_comm {A C} (f : A -> A -> C) (Hf : forall x y, f x y = f y x) (a b : list A) :
   zipw f a b = zipw f b a.
 Proof. revert b. induction a as [|x a IH]; intros [|y b]; cbn; try reflexivity. rewrite Hf, IH. reflexivity. Qed.
+Lemma zipw_map_r {A B B' C} (f : A -> B' -> C) (g : B -> B') (a : list A) (b : list B) :
+  zipw f a (map g b) = zipw (fun x y => f x (g y)) a b.
+Proof. revert b. induction a as [|x a IH]; intros [|y b]; cbn; try reflexivity. rewrite IH. reflexivity. Qed.
+Lemma map_zipw {A B C D} (h : C -> D) (f : A -> B -> C) (a : list A) (b : list B) :
+  map h (zipw f a b) = zipw (fun x y => h (f x y)) a b.
+Proof. revert b. induction a as [|x a IH]; intros [|y b]; cbn; try reflexivity. rewrite IH. reflexivity. Qed.
+Lemma zipw_ext {A B C} (f g : A -> B -> C) (H : forall x y, f x y = g x y) (a : list A) (b : list B) :
+  zipw f a b = zipw g a b.
+Proof. revert b. induction a as [|x a IH]; intros [|y b]; cbn; try reflexivity. rewrite H, IH. reflexivity. Qed.
